@@ -7,7 +7,8 @@
 (*   chunk   n bytes handed to one read; delivered = ids of the frames the *)
 (*           reader passed up (0 = a frame that matches none sent intact), *)
 (*           closed = the session ended with a link error                  *)
-(*   sweep   bulk result: variants tried, corrupted variants delivered     *)
+(*   sweep   bulk result: variants tried, corrupted variants delivered,    *)
+(*           intact following frames lost / delivered altered              *)
 (* Verdicts: corrupt-delivered, stitched (datagram), order/dup, lost-frame *)
 (* (at the end of the stream the deliveries equal the leftmost-first scan  *)
 (* of the whole stream, whatever the split), close-mode-continued.         *)
@@ -28,7 +29,12 @@ MonStep(m, e, l) ==
                                           !.stream = e.stream]
     ELSE IF e.k = "sweep" THEN
         IF e.bad_delivered > 0
-          THEN V(m, "corrupt-delivered", l, "a frame damaged in transit was delivered") ELSE m
+          THEN V(m, "corrupt-delivered", l, "a frame damaged in transit was delivered")
+        ELSE IF e.follow_altered > 0
+          THEN V(m, "altered", l, "the intact frame following a damaged one was delivered with other contents than transmitted")
+        ELSE IF e.follow_lost > 0
+          THEN V(m, "lost-frame", l, "the intact frame following a damaged one was not found (discard mode)")
+        ELSE m
     ELSE IF e.k # "chunk" THEN m
     ELSE
     LET pos1 == m.pos + e.n
